@@ -459,9 +459,17 @@ def gen_case(rng: random.Random, max_events: int = 6) -> dict:
                 joined.add(len(frames))
             if i in from_sql:
                 from_sql.add(len(frames))
-            if rng.random() < 0.55:
+            c2 = rng.random()
+            if c2 < 0.45:
                 events.append({"ev": "transform", "i": i, "op": {"k": "where", "p": g.bool_expr(rng.choice([1, 2]))}})
                 frames.append(sch)
+            elif c2 < 0.6 and len(sch) > 1:
+                # the same columns in another order (a later re-registration under the same name must show the new order)
+                perm = list(sch)
+                while perm == list(sch):
+                    rng.shuffle(perm)
+                events.append({"ev": "transform", "i": i, "op": {"k": "select", "items": [[c_, ("col", c_)] for c_, _ in perm]}})
+                frames.append(perm)
             else:
                 items = []
                 names = []
@@ -911,6 +919,73 @@ def check_gen(ctx: Ctx) -> t.Dict[str, t.Any]:
 # ------------------------------------------------------------------------------------------------
 
 
+def _blk(src: t.List[dict], sel: dict, where: t.Any = None, on: t.Any = None) -> dict:
+    return {"src": src, "on": on, "where": where, "distinct": False, "sel": sel}
+
+
+STAR = {"k": "star"}
+
+
+def family_permute(rng: random.Random) -> dict:
+    """a view re-registered with the same columns in another order (or other columns), then `*` in every position"""
+    sch = rng.choice([s_ for s_ in SCHEMAS if len(s_) >= 2])
+    name = rng.choice(VIEW_NAMES)
+    events: t.List[dict] = [{"ev": "create", "schema": sch, "rows": X.gen_table(rng, dict(sch), 4) or [[1 if ty == "int" else "a" for _, ty in sch]]}]
+    events.append({"ev": "register", "name": variant(rng, name), "i": 0})
+    perm = list(sch)
+    while perm == list(sch):
+        rng.shuffle(perm)
+    if rng.random() < 0.3:
+        perm = perm[:-1] + [("j", "int")]  # a renamed column as well
+        items = [[c_, ("col", c_)] for c_, _ in perm[:-1]] + [["j", ("lit", 1)]]
+    else:
+        items = [[c_, ("col", c_)] for c_, _ in perm]
+    events.append({"ev": "transform", "i": 0, "op": {"k": "select", "items": items}})
+    if rng.random() < 0.5:
+        events.append({"ev": "sql", "q": {"ctes": [], "final": _blk([{"t": name, "a": None}], STAR)}})
+    events.append({"ev": "register", "name": variant(rng, name), "i": 1})
+    g = X.Gen(rng, {f"x.{c_}": ty for c_, ty in perm})
+    shapes = [
+        {"ctes": [], "final": _blk([{"t": variant(rng, name), "a": None}], STAR)},
+        {"ctes": [], "final": _blk([{"t": name, "a": "x"}], STAR, where=g.bool_expr(1))},
+        {"ctes": [["c", _blk([{"t": name, "a": None}], STAR)]], "final": _blk([{"t": "c", "a": None}], STAR)},
+        {"ctes": [], "final": _blk([{"sub": _blk([{"t": name, "a": None}], STAR), "a": "q"}], STAR)},
+        {"ctes": [["c", _blk([{"t": name, "a": "x"}], STAR)]], "final": _blk([{"t": "c", "a": "y"}], {"k": "items", "items": [[perm[0][0], ("col", f"y.{perm[0][0]}")]]})},
+    ]
+    for q in rng.sample(shapes, 3):
+        events.append({"ev": "sql", "q": q})
+    events.append({"ev": "table", "name": variant(rng, name)})
+    return {"tables": {}, "events": events}
+
+
+def family_lineage(rng: random.Random) -> dict:
+    """a view built from another view keeps its meaning when that view is re-registered, also inside one statement
+    that mentions both (in either order)"""
+    sch = rng.choice(SCHEMAS)
+    rows1 = X.gen_table(rng, dict(sch), 4) or [[1 if ty == "int" else "a" for _, ty in sch]]
+    rows2 = [[(v + 1 if isinstance(v, int) else v) for v in r] for r in rows1] + [[7 if ty == "int" else "z" for _, ty in sch]]
+    events: t.List[dict] = [{"ev": "create", "schema": sch, "rows": rows1}, {"ev": "create", "schema": sch, "rows": rows2}]
+    events.append({"ev": "register", "name": "va", "i": 0})
+    other = [c_ for c_, _ in sch if c_ != "k"][0]
+    if rng.random() < 0.5:
+        events.append({"ev": "sql", "q": {"ctes": [], "final": _blk([{"t": "va", "a": "x"}], {"k": "items", "items": [["k", ("col", "x.k")], [other, ("col", f"x.{other}")]]})}})
+        fr = 2
+    else:
+        events.append({"ev": "table", "name": "va"})
+        g = X.Gen(rng, dict(sch))
+        events.append({"ev": "transform", "i": 2, "op": {"k": "where", "p": ("bin", "or", ("isNull", ("col", "k")), ("not", ("isNull", ("col", "k"))))}})
+        fr = 3
+    events.append({"ev": "register", "name": "vb", "i": fr})
+    events.append({"ev": "register", "name": variant(rng, "va"), "i": 1})
+    a, b = ("va", "vb") if rng.random() < 0.5 else ("vb", "va")
+    join = _blk([{"t": a, "a": "x"}, {"t": b, "a": "y"}], {"k": "items", "items": [["k", ("col", "x.k")], ["m", ("col", f"y.{other}")]]}, on=("bin", "eq", ("col", "x.k"), ("col", "y.k")))
+    events.append({"ev": "sql", "q": {"ctes": [], "final": join}})
+    join2 = _blk([{"t": b, "a": "x"}, {"t": a, "a": "y"}], {"k": "items", "items": [["k", ("col", "x.k")], ["m", ("col", f"y.{other}")]]}, on=("bin", "eq", ("col", "x.k"), ("col", "y.k")))
+    events.append({"ev": "sql", "q": {"ctes": [], "final": join2}})
+    events.append({"ev": "table", "name": "vb"})
+    return {"tables": {}, "events": events}
+
+
 def known_entries() -> t.Dict[str, dict]:
     known = {e["id"]: e for e in vlib.known_findings(ID)}
     extra = os.path.join(vlib.VERIF, "tools", "props", "c13.known.json")
@@ -930,7 +1005,12 @@ def cases_for(ctx: Ctx) -> t.List[dict]:
                 c = json.load(open(os.path.join(corpus_dir, fn)))
                 c["origin"] = "corpus:" + fn
                 cases.append(c)
-    n = 2500 if ctx.thorough else 260
+    for fam, k in ((family_permute, 24), (family_lineage, 12)):
+        for _ in range(k * (4 if ctx.thorough else 1)):
+            c = fam(ctx.rng)
+            c["origin"] = fam.__name__
+            cases.append(c)
+    n = 2500 if ctx.thorough else 240
     for _ in range(n):
         c = gen_case(ctx.rng)
         c["origin"] = "random"
@@ -1061,13 +1141,18 @@ def run(ctx: Ctx) -> None:
     for r, ch in viol:
         if reported >= 3:
             break
-        c = shrink(r["case"], pred)
+        keep_value = "err" not in ch["spec"]  # do not shrink a wrong result into a statement that has no value at all
+
+        def pred_keep(rr: dict, keep_value: bool = keep_value) -> bool:
+            return any((not keep_value) or ("err" not in v["spec"]) for v in classify(rr, known)["viol"])
+
+        c = shrink(r["case"], pred_keep)
         key = vlib.digest(c["events"])
         if key in seen_prog:
             continue
         seen_prog.add(key)
         rr = evaluate([c], workers=1)[0]
-        bad = classify(rr, known)["viol"]
+        bad = [v for v in classify(rr, known)["viol"] if (not keep_value) or ("err" not in v["spec"])] or classify(rr, known)["viol"]
         ch2 = bad[0] if bad else ch
         vlib.report_violation(ctx, replay_dict(rr if bad else r, ch2, ctx, "session.sql / session.table result differs from the specification (views denote the registered frames' rows)"))
         reported += 1
@@ -1090,7 +1175,7 @@ def run(ctx: Ctx) -> None:
             "evaluations": len(res),
             "frame_observations": n_checks,
             "distinct_nontrivial": len(nontrivial),
-            "rule": "corpus, then random histories: 1-3 createDataFrame, a registration, then up to 5 more events drawn from "
+            "rule": "corpus, then two targeted families (a view re-registered with permuted / changed columns followed by `*` at top level, in a CTE, in a subquery; a view built from another view, that view re-registered, one statement joining both in either order), then random histories: 1-3 createDataFrame, a registration, then up to 5 more events drawn from "
             "register / re-register (3 names, case variants) / session.table / session.sql(generated SELECT: projection, filter, join, "
             "aggregate, CTE, subquery, UNION ALL in a subquery, *) / DataFrame where|select on any earlier frame / join back to a view; "
             "every frame is collected when built and again at the end of the history; non-trivial = distinct (statement, non-empty result) "
